@@ -108,6 +108,21 @@ pub fn number_to_string(n: f64) -> String {
     out
 }
 
+/// ECMAScript ToUint32: truncate toward zero, then wrap modulo 2^32 (NaN and infinities give 0).
+pub fn to_uint32(n: f64) -> u32 {
+    if !n.is_finite() {
+        return 0;
+    }
+    // The float remainder is exact: an integer in (-2^32, 2^32), which the two casts then wrap
+    let wrapped = math::trunc(n) % 4_294_967_296.0;
+    (wrapped as i64) as u32
+}
+
+/// ECMAScript ToInt32: ToUint32 reinterpreted as a signed 32-bit integer.
+pub fn to_int32(n: f64) -> i32 {
+    to_uint32(n) as i32
+}
+
 /// Convert a JavaScript string to a number according to ECMAScript ToNumber.
 ///
 /// The string is first trimmed of leading and trailing whitespace.
